@@ -3,6 +3,8 @@
 package vharness
 
 import (
+	"strings"
+
 	"github.com/douban/gobeansdb/vshim/vsched"
 )
 
@@ -15,7 +17,7 @@ func c02bScenarios() []*Scenario {
 	mk := func(name string, splitCap int64, extra func(m *Machine, rec *Recorder) []func(), writer func(m *Machine, rec *Recorder)) {
 		c := cfgSched(name)
 		c.SplitCap = splitCap
-		out = append(out, &Scenario{Property: "C02", Name: name, Cfg: c, Run: func(sc *Scenario, s *vsched.Sched) (*Mismatch, string) {
+		out = append(out, &Scenario{Property: "C02", Name: name, Cfg: c, Heavy: strings.HasPrefix(name, "B3") || strings.HasPrefix(name, "B4"), Run: func(sc *Scenario, s *vsched.Sched) (*Mismatch, string) {
 			m := NewMachine(s, sc.Cfg, nil)
 			defer m.Exit()
 			rec := &Recorder{st: m.St}
@@ -50,7 +52,7 @@ func c02bScenarios() []*Scenario {
 	none := func(m *Machine, rec *Recorder) []func() { return nil }
 	flusher := func(m *Machine, rec *Recorder) []func() { return []func(){func() { m.St.VerifFlush(false) }} }
 	both := func(m *Machine, rec *Recorder) []func() {
-		return []func(){func() { m.St.VerifFlush(false) }, func() { m.St.VerifDump() }}
+		return []func(){func() { m.St.VerifFlush(false) }, func() { m.St.VerifLimitDumper(m.St.VerifNewHead(0) + 1); m.St.VerifDump() }}
 	}
 	mk("B1-rotate-close-exit", 1024, none, rot)
 	mk("B2-rotate-close-exit-flusher", 1024, flusher, rot)
